@@ -154,11 +154,9 @@ class IntervalTier(textgrid_tier.TextgridTier):
         )
 
         if rebaseToZero is True:
-            newSmallestValue = newEntryList[0][0]
-            if newSmallestValue < cropStart:
-                timeDiff = newSmallestValue
-            else:
-                timeDiff = cropStart
+            timeDiff = cropStart
+            if len(newEntryList) > 0 and newEntryList[0][0] < cropStart:
+                timeDiff = newEntryList[0][0]
             newEntryList = [
                 Interval(start - timeDiff, end - timeDiff, label)
                 for start, end, label in newEntryList
